@@ -303,7 +303,7 @@ def replay_world(task):
     rng = random.Random(seed)
     t0 = time.time()
     try:
-        S = hs.setup_world(w, rng, chem=opts.get("chem"))
+        S = hs.setup_world(w, rng, chem=opts.get("chem"), jitter=opts.get("jitter", 0.0))
         jn, proj = hs.network(S, rng, opts.get("nshell", 1), subset=opts.get("subset", False))
     except worlds.ProjectionError as ex:
         return {"error": "projection", "what": str(ex), "name": w["name"]}
@@ -427,7 +427,7 @@ def world_tasks(ctx, quick):
         add("fcc", "small", chem=0, direct=[("fresh", (3, False)), ("add", (2, True, 1, True, False))])
         add("hcp", "small", chem=0, lattice=True, direct=[("fresh", (3, True)), ("add", (1, False, 2, False, True))])
         add("b2", "small", chem=rng.randrange(2), nshell=2, budget=8, trivial_keep=0.2, direct=[("fresh", (3, False))])
-        add("diamond", "small", chem=0, budget=8, trivial_keep=0.2)
+        add("diamond", "small", chem=0, budget=8, trivial_keep=0.2, jitter=1e-10)     # noise below the symmetry threshold
         add("fccoct", "small", chem=2, budget=8, trivial_keep=0.2)
         for n in range(3):
             w = worlds.random_world(rng, dim=2 if n == 0 else 3, maxatoms=3)
@@ -450,24 +450,28 @@ def world_tasks(ctx, quick):
         for n in range(30):
             w = worlds.random_world(rng, maxatoms=4)
             add(w["name"], "big" if w["dim"] == 2 else "small", w=w, subset=bool(n % 2), lattice=bool(n % 3 == 0),
-                nshell=1 + (n % 2), trivial_keep=0.3)
+                nshell=1 + (n % 2), trivial_keep=0.3, jitter=1e-10 if n % 4 == 1 else 0.0)
     return tasks
 
 
 def run(ctx):
     quick = ctx.tier == "quick"
-    ctx.rule = ("TLC state graph of StarSetObj (2 object slots; Generate N<=2, sums/differences up to range 2 in 3D, 3 in 2D "
-                "[thorough: 3 / 4]) replayed edge by edge on real StarSet objects of catalogue + random worlds in random "
+    ctx.rule = ("TLC state graph of StarSetObj (2 object slots; Generate N<=2 and sums/differences up to range 2 in 3D, N<=3 and "
+                "range 3 in 2D [thorough: range 3 / 4]) replayed edge by edge on real StarSet objects of catalogue + random worlds in random "
                 "orientation, all objects projected after every step; plus direct generation/sums one range beyond; "
                 "non-trivial = distinct replayed step (action, operand descriptors, world) whose target holds a star "
                 "with more than one state")
     t0 = time.time()
-    graphs = {"small": model_graph(ctx, "square", 2, (0, 1, 2)),
-              "big": model_graph(ctx, "square", 3, (0, 1, 2))}
+    from concurrent.futures import ThreadPoolExecutor
+    specs = {"small": ("square", 2, (0, 1, 2)), "big": ("square", 3, (0, 1, 2, 3))}
     if not quick:
-        graphs["mid"] = graphs["big"]
-        graphs["big"] = model_graph(ctx, "square", 4, (0, 1, 2))
-        other = model_graph(ctx, "honeycomb", 3, (0, 1, 2))      # the symbolic graph does not depend on the world
+        specs = {"small": ("square", 2, (0, 1, 2)), "mid": ("square", 3, (0, 1, 2, 3)), "big": ("square", 4, (0, 1, 2, 3)),
+                 "other": ("honeycomb", 3, (0, 1, 2, 3))}
+    with ThreadPoolExecutor(max_workers=4) as tex:
+        futs = {k: tex.submit(model_graph, ctx, *v) for k, v in specs.items()}
+        graphs = {k: f.result() for k, f in futs.items()}
+    if not quick:
+        other = graphs.pop("other")      # the symbolic graph does not depend on the world
         if symbolic(other) != symbolic(graphs["mid"]):
             raise tlc.TLCError("StarSetObj: the descriptor graph differs between worlds square and honeycomb")
     ctx.exhaustive = True
